@@ -289,6 +289,16 @@ def gen_scenario(rng, force: dict | None = None) -> dict:
                                 f'; created {j}{eol}2000-01-03 open Assets:New{j}{eol}'])
     if rng.random() < 0.2:
         scn['raise'] = rng.choice(['before', 'after'])
+    # bystanders: files next to the ledgers that no include reaches under glob rules (dot-files and files in
+    # dot-directories are not matched by * / **; '<ledger>.tmp', '<ledger>~' are not named by anything) - they
+    # must not be visited, parsed, written, renamed or removed
+    scn['bystanders'] = {}
+    if rng.random() < 0.6:
+        cands = ['.hidden.bean', 'inc/.draft.bean', '.trash/old.bean', 'inc/deep/.x.bean'] + \
+                [r + '.tmp' for r in rels] + [r + '~' for r in rels[:2]]
+        for b in rng.sample(cands, rng.choice([1, 2, 3])):
+            if b not in files:
+                scn['bystanders'][b] = f'2000-02-02 open Assets:Bystander{len(scn["bystanders"])}\n'
     return scn
 
 
@@ -341,6 +351,14 @@ def corpus() -> list[dict]:
     mi = {MAIN: ['x[[]ab]/g.bean', 'led[[]2020]/i.bean', 'st[*]r/k.bean', 'q[?]/l.bean'], 'x[ab]/g.bean': ['h.bean'],
           'led[2020]/i.bean': ['*.bean'], 'st*r/k.bean': ['./k.bean'], 'q?/l.bean': ['../q[?]/l.bean']}
     mk(mg, mi, edits={'x[ab]/h.bean': 'account', 'st*r/k.bean': 'account'})
+    # bystanders: a scratch file named like the ledger, dot-files and a dot-directory next to wildcard includes
+    by = '2000-02-02 open Assets:Bystander\n'
+    mk({MAIN: m}, {MAIN: []}, edits={MAIN: 'account'}, mode='single', bystanders={'main.bean.tmp': by, 'main.bean~': by})
+    mk({MAIN: m}, {MAIN: []}, edits={MAIN: 'narration'}, cwd='.', root='main.bean', spelling='bare',
+       bystanders={'main.bean.tmp': by})
+    hs = {MAIN: 'include "*.bean"\ninclude "**/*.bean"\n' + o % 0, 'a.bean': o % 1, 'inc/c.bean': 'include "*.bean"\n' + o % 2}
+    mk(hs, {MAIN: ['*.bean', '**/*.bean'], 'a.bean': [], 'inc/c.bean': ['*.bean']}, edits={'a.bean': 'account', 'inc/c.bean': 'account'},
+       bystanders={'.hidden.bean': by, 'inc/.draft.bean': by, '.trash/old.bean': by, 'a.bean.tmp': by})
     return out
 
 
@@ -459,6 +477,12 @@ def execute(ctx, scn: dict) -> dict:
             with open(p, 'wb') as f:
                 f.write(text.replace('{D}', D).encode('ascii'))
             os.utime(p, ns=(OLD_NS, OLD_NS))
+        for rel, text in scn.get('bystanders', {}).items():
+            p = os.path.join(D, rel)
+            os.makedirs(os.path.dirname(p), exist_ok=True)
+            with open(p, 'wb') as f:
+                f.write(text.encode('ascii'))
+            os.utime(p, ns=(OLD_NS, OLD_NS))
         anc, a = [], top
         while a != '/':
             a = os.path.dirname(a)
@@ -565,7 +589,7 @@ def _body(scn, files, D, models, parser):
 # the property's own statement
 def expected_edit(scn, rel: str, data: bytes) -> bytes:
     kind = scn['edits'].get(rel)
-    i = scn['idx'][rel]
+    i = scn['idx'].get(rel)      # None: a file the scenario never lists as a ledger (a bystander) - never edited by the body
     if kind == 'account':
         return data.replace(f'Assets:F{i}:Acct'.encode(), f'Assets:Edited{i}'.encode(), 1)
     if kind == 'narration':
